@@ -580,3 +580,30 @@ MUTANTS += [
  dict(id="C07-http-status-left-one", props=["C07"], expect={"C07": r"status#http#table"},
       edits=[(HST, "        } else if bytes_left == 0 {", "        } else if bytes_left <= 1 {")]),
 ]
+
+MUTANTS += [
+ dict(id="C02-udp-guard-lt", props=["C02"], expect={"C02": r"select#udp#guard|select#sibling"},
+      edits=[(SWR, "        if self.peers.len() <= max_num_peers_to_take {\n            self.peers.keys().copied().collect()", "        if self.peers.len() < max_num_peers_to_take {\n            self.peers.keys().copied().collect()")]),
+ dict(id="C02-http-half-is-max", props=["C02"], expect={"C02": r"select#http#ranges"},
+      edits=[(HST, "            let num_to_take_per_half = max_num_peers_to_take / 2;", "            let num_to_take_per_half = max_num_peers_to_take / 1;")]),
+ dict(id="C02-ws-plus-one-dropped", props=["C02"], expect={"C02": r"select#ws#ranges"},
+      edits=[(WST, "        let num_to_take_per_half = (max_num_peers_to_take / 2) + 1;", "        let num_to_take_per_half = max_num_peers_to_take / 2;")]),
+ dict(id="C02-udp-clamp-lt-zero", props=["C02"], expect={"C02": r"clamp#udp"},
+      edits=[(SWR, "        let max_num_peers_to_take: usize = if request.peers_wanted.0.get() <= 0 {", "        let max_num_peers_to_take: usize = if request.peers_wanted.0.get() < 0 {")]),
+ dict(id="C02-http-clamp-zero-means-zero", props=["C02"], expect={"C02": r"clamp#http"},
+      edits=[(HST, "            Some(0) | None => config.protocol.max_peers,", "            None => config.protocol.max_peers,")]),
+ dict(id="C02-ws-second-half-unfiltered", props=["C02"], expect={"C02": r"exclude#ws#(every_extend_filtered|filter_closures)"},
+      edits=[(WST, """        if let Some(slice) = peer_map.get_range(offset_half_two..end_half_two) {
+            peers.extend(slice.iter().filter_map(|(k, v)| {
+                (*k != sender_peer_map_key).then_some(peer_conversion_function(k, v))
+            }));
+        }""", """        if let Some(slice) = peer_map.get_range(offset_half_two..end_half_two) {
+            peers.extend(slice.iter().map(|(k, v)| peer_conversion_function(k, v)));
+        }""")]),
+ dict(id="C02-ws-no-truncation", props=["C02"], expect={"C02": r"exclude#ws#truncated_to_max"},
+      edits=[(WST, "        while peers.len() > max_num_peers_to_take {\n            peers.pop();\n        }\n\n        peers\n    }\n}", "        peers\n    }\n}")]),
+ dict(id="C02-udp-offset-two-from-zero", props=["C02"], expect={"C02": r"select#udp#ranges"},
+      edits=[(SWR, "                let from = middle_index;\n                let to = usize::max(middle_index + 1, self.peers.len() - num_to_take_per_half);", "                let from = middle_index - middle_index;\n                let to = usize::max(middle_index + 1, self.peers.len() - num_to_take_per_half);")]),
+ dict(id="C02-ws-limit-from-peer-count", props=["C02"], expect={"C02": r"clamp#ws"},
+      edits=[(WST, "        let max_num_peers_to_take = offers.len().min(config.protocol.max_offers);", "        let max_num_peers_to_take = offers.len().max(config.protocol.max_offers).min(self.peers.len());")]),
+]
